@@ -52,6 +52,20 @@ def run_case(ctx, rng, idx):
     from hypergraphx.measures import directed as dm
 
     h = gen(rng)
+    evaluate(ctx, rng, idx, h)
+    from ..mutate import same_count_edit
+
+    if same_count_edit(rng, h, directed=True):  # same object and counts, other shapes: stale memos show here
+        ctx.event("re-evaluated-after-in-place-edit")
+        evaluate(ctx, rng, idx, h)
+    c = h.copy()
+    if same_count_edit(rng, c, directed=True):
+        evaluate(ctx, rng, idx, c)
+
+
+def evaluate(ctx, rng, idx, h):
+    from hypergraphx.measures import directed as dm
+
     S = observe(h)
     E = list(S.edges)
     sizes = [len(s) + len(t) for s, t in E]
